@@ -1,4 +1,4 @@
-use crate::solvers::common::{DisplayValue, LpSolution, SolverError, format_float};
+use crate::solvers::common::{DisplayValue, LpSolution, SolutionStatus, SolverError, format_float};
 use crate::transformers::LinearModel;
 use crate::{
     Assignment, Comparison, OptimizationType, VariableType, make_constraints_map_from_assignment,
@@ -184,6 +184,14 @@ pub fn solve_milp_lp_problem_with(
 
     match problem.solve_with(solve_options) {
         Ok(s) => {
+            // a limit (time, MIP gap) can stop the search early: only a proven
+            // optimum may be labelled optimal, an incumbent is merely feasible and
+            // an interrupted search without incumbent has no solution at all
+            let status = match s.status() {
+                microlp::Status::Optimal => SolutionStatus::Optimal,
+                microlp::Status::Feasible => SolutionStatus::Feasible,
+                microlp::Status::Interrupted => return Err(SolverError::LimitReached),
+            };
             let assignment = microlp_vars
                 .iter()
                 .zip(variables)
@@ -209,7 +217,8 @@ pub fn solve_milp_lp_problem_with(
                 assignment,
                 s.objective() + lp.objective_offset(),
                 constraints,
-            ))
+            )
+            .with_status(status))
         }
         Err(e) => Err(match e {
             Error::InternalError(s) => SolverError::Other(s),
